@@ -61,7 +61,13 @@ MkInput(ptr, name, defs, uses, pert, en) ==
                EXCEPT !.packed = TRUE]
       (* an enum over the name: accepted only when the name denotes the built-in integer type *)
       En == EnumDef("En", "pub", TNm(name), <<Variant("A", NumNone, FALSE)>>)
-      mm == [Module(<<"m">>, [i \in DOMAIN uses |-> UsePath(name, uses[i])], own("m") \o <<Own, R2>> \o (IF en THEN <<En>> ELSE <<>>))
+      (* m also holds a type that reaches one base type over two paths (the backend emits markers for it), and so *)
+      (* does the unrelated module of the perturbations: what one module emits must not depend on the other      *)
+      OwnP == TypeDef("OwnP", "pub", <<Field("v", "pub", <<>>, TCPtr(TNm("u8")), None, FALSE)>>)
+      Dia == TypeDef("Dia", "pub", <<Field("l", "pub", <<>>, TNm("OwnP"), None, TRUE), Field("r", "pub", <<>>, TNm("OwnP"), None, TRUE)>>)
+      ZP == TypeDef("ZP", "pub", <<Field("v", "pub", <<>>, TCPtr(TNm("u8")), None, FALSE)>>)
+      ZDia == TypeDef("ZDia", "pub", <<Field("l", "pub", <<>>, TNm("ZP"), None, TRUE), Field("r", "pub", <<>>, TNm("ZP"), None, TRUE)>>)
+      mm == [Module(<<"m">>, [i \in DOMAIN uses |-> UsePath(name, uses[i])], own("m") \o <<Own, R2, OwnP, Dia>> \o (IF en THEN <<En>> ELSE <<>>))
                EXCEPT !.impls = <<Impl("R", <<g>>)>>,
                       (* an extern value mentions the name too: its accessor type reveals the binding *)
                       !.evals = <<ExtVal("gx", "pub", TCPtr(TNm(name)), 8192)>>]
@@ -75,7 +81,7 @@ MkInput(ptr, name, defs, uses, pert, en) ==
                                       ELSE <<>>))
       mb == Module(<<"b">>, <<>>, own("b") \o <<W(4)>> \o extraB)
       mn == Module(<<"a", "n">>, <<<<"b">>>>, own("n") \o <<RN>>)
-      mz == Module(<<"zz">>, <<<<"a">>>>, <<DefOf(name, "b"), Unrelated>>)
+      mz == Module(<<"zz">>, <<<<"a">>>>, <<DefOf(name, "b"), Unrelated, ZP, ZDia>>)
       mraw == Module(<<"r#m">>, <<>>, <<Unrelated>>)
       mdot == Module(<<"a.x", "n">>, <<<<"b">>>>, <<Unrelated>>)
       base == <<mm, ma, mb, mn>>
